@@ -178,11 +178,16 @@ func Extract(file []byte) (*Result, error) {
 	if err != nil {
 		return nil, err
 	}
-	if n.Arg%2 != 0 {
-		return nil, ferr("odd section-lengths array")
+	// Leniency: the format's section-lengths array holds (name, length) pairs; an odd
+	// count is malformed, but a reader that walks the array pairwise ("for i < n; i += 2")
+	// consumes ceil(n/2) pairs.  The extractor does the same so that content returned for
+	// such an input can still be judged (the property does not demand refusal here).
+	pairs := n.Arg/2 + n.Arg%2
+	if pairs > uint64(len(sl)) {
+		return nil, ferr("section-lengths array count exceeds its bytes")
 	}
 	seen := map[string]bool{}
-	for i := uint64(0); i < n.Arg/2; i++ {
+	for i := uint64(0); i < pairs; i++ {
 		name, err := sc.str(fmt.Sprintf("section %d name length", i), refcbor.Text)
 		if err != nil {
 			return nil, err
